@@ -105,7 +105,7 @@ theorem runLoads_ok (w : Bool) (versions : String → Nat) (ls : List Load) (c :
     · exact ⟨rfl, h2, h3⟩
     · exact i3 p hp
 
-theorem history_correct' (runs : List Run) (c : Cache) (hc : CacheInv' c) :
+theorem history_correct' (runs : List CacheRun) (c : Cache) (hc : CacheInv' c) :
     CacheInv' (runHistory .getCode c runs).1 ∧ (runHistory .getCode c runs).2.length = runs.length ∧
     ∀ i (hi : i < runs.length) (hi' : i < (runHistory .getCode c runs).2.length),
       ((runHistory .getCode c runs).2[i]).length = (runs[i]).loads.length ∧
@@ -124,7 +124,7 @@ theorem history_correct' (runs : List Run) (c : Cache) (hc : CacheInv' c) :
       simp only [List.getElem_cons_succ]
       exact i3 j (by simpa using hi) (by simpa using hi')
 
-theorem history_correct (c : Cache) (hc : CacheInv' c) (runs : List Run) :
+theorem history_correct (c : Cache) (hc : CacheInv' c) (runs : List CacheRun) :
     let r := runHistory .getCode c runs
     CacheInv' r.1 ∧ r.2.length = runs.length ∧
     ∀ i (hi : i < runs.length) (hi' : i < r.2.length),
